@@ -47,6 +47,16 @@
 # over other files under the same names.  They are created and loaded before the pair's first engine exists,
 # or before the history, render right after loading and in between the other renders.  Every alien render is
 # repeated in a process that holds only that engine: the two outputs must be equal.
+# KEYS THAT ARE NOT STRINGS / STRUCT TYPES WITHOUT A NAME: page data holds Go maps keyed by bool, named bool, int8,
+# uint16, int64, float64, a small struct, an array, a named string type and interface{} (keys of several dynamic
+# types) - convert names such entries fmt.Sprint(key); the judge gets that name computed by this file (kname) - and
+# values of struct types that have no name of their own: types made by reflect.StructOf from a per-value field list
+# (what `struct{Title string}` literals are: Name() and PkgPath() are empty) and five types declared inside functions
+# of the harness, all called main.View, with different fields.  Since g_data makes the data of every render (pair,
+# history, alien engines), one process sees several such types one after the other.
+# NOT THE FIRST RENDER: one more process per case renders the first two history / late renders with other data (on
+# the same or on a second engine instance) and THEN the pair, once: what the first render of a process' life
+# leaves behind for the others (a table filled at first sight of a type, a key, a name) is then not the pair's own.
 # A template is stored either as raw pug AST JSON (list of nodes) or as {"tree": <tmpl.py pug tuples>};
 # only the tree form is handed to the executor model.
 import json
@@ -62,6 +72,7 @@ ENGINE_ALONE = 4
 # ('nil',) ('bool',b) ('int',n) ('str',bytes) ('arr',[v]) ('strs',[bytes]) ('ints',[n])
 # ('map',[(k,v)]) ('smap',[(k,bytes)]) ('imap',[(k,n)]) ('nmap',[(n,bytes)])
 # ('rec',{field:v}) ('prec',{field:v}) ('ptr',v)
+# ('kmap',[(key,v)],kind) map with keys that are not strings      ('st',[(Field,v)],ty,is_ptr) struct without a type name
 REC_FIELDS = ["name", "count", "tags", "items", "attrs", "next"]   # declaration order of c07Rec
 
 
@@ -93,6 +104,10 @@ def d_go(v):
         return {"t": t, "v": [[hx(k), d_go(x)] for k, x in v[1].items()]}
     if t == 'ptr':
         return {"t": "ptr", "v": d_go(v[1])}
+    if t == 'kmap':
+        return {"t": "kmap", "v": {"k": v[2], "e": [[kkey_go(v[2], k), d_go(x)] for k, x in v[1]]}}
+    if t == 'st':
+        return {"t": "st", "v": {"ty": v[2], "ptr": bool(v[3]), "f": [[hx(k), d_go(x)] for k, x in v[1]]}}
     if t == 'obj':
         return {"t": "obj", "v": d_go(v[1])}
     if t == 'objs':
@@ -143,6 +158,13 @@ def d_coq(v):
         return b"(GPtr (Some " + s + b"))" if t == 'prec' else s
     if t == 'ptr':
         return b"(GPtr (Some " + d_coq(v[1]) + b"))"
+    # a key that is not a string names its entry by fmt.Sprint(key) (computed here, by kname, from the key's
+    # description - not taken from the engine)
+    if t == 'kmap':
+        return b"(GMap " + cq_list([cq_pair(ckey(kname(v[2], k)), d_coq(x)) for k, x in v[1]]) + b")"
+    if t == 'st':
+        s = b"(GStruct " + cq_list([cq_pair(cq_bytes(k), d_coq(x)) for k, x in v[1]]) + b")"
+        return b"(GPtr (Some " + s + b"))" if v[3] else s
     # values of the engine's own object model stand for the Go value they were converted from: a render
     # converts its data, and converting a converted value is the identity on what a template can see
     if t == 'obj':
@@ -180,6 +202,12 @@ def d_plain(v):
         return {"go": "struct" if t == 'rec' else "*struct", "fields": {k: d_plain(x) for k, x in v[1].items()}}
     if t == 'ptr':
         return {"go": "pointer", "to": d_plain(v[1])}
+    if t == 'kmap':
+        return {"go": KM_GO[v[2]], "entries": {kname(v[2], k): d_plain(x) for k, x in v[1]}}
+    if t == 'st':
+        return {"go": ("*" if v[3] else "") + ("reflect.StructOf type (no name)" if v[2] < 0 else
+                                               "function-local type View no. %d" % v[2]),
+                "fields": {k: d_plain(x) for k, x in v[1]}}
     if t == 'obj':
         return {"go": "pugjs.Convert(..)", "of": d_plain(v[1])}
     if t == 'objs':
@@ -203,6 +231,9 @@ def d_kinds(v, acc):
             d_kinds(x, acc)
     elif t in ('ptr', 'obj'):
         d_kinds(v[1], acc)
+    elif t in ('kmap', 'st'):
+        for _, x in v[1]:
+            d_kinds(x, acc)
     elif t == 'objs':
         for x in v[1]:
             d_kinds(x, acc)
@@ -274,6 +305,8 @@ def g_value(rng, depth, tier):
         return ('ints', [g_int(rng) for _ in range(rng.randint(0, 4))])
     if r < 0.94:
         return g_maplike(rng, depth - 1, tier, small=True)
+    if r < 0.97:
+        return g_struct(rng, depth - 1, tier)
     return g_rec(rng, depth - 1, tier)
 
 
@@ -299,17 +332,158 @@ def g_maplike(rng, depth, tier, small=False):
     n = rng.randint(0, 4) if small else g_size(rng, tier)
     ks = g_keys(rng, n)
     r = rng.random()
-    if r < 0.55:
+    if r < 0.44:
         return ('map', [(k, g_value(rng, depth, tier)) for k in ks])
-    if r < 0.68:
+    if r < 0.53:
         return ('smap', [(k, g_str(rng)) for k in ks])
-    if r < 0.78:
+    if r < 0.60:
         return ('imap', [(k, g_int(rng)) for k in ks])
-    if r < 0.86:
+    if r < 0.65:
         return ('nmap', [(i, g_str(rng)) for i in rng.sample(range(-3, 40), min(n, 12))])
-    if r < 0.93:
+    if r < 0.78:
+        return g_kmap(rng, depth, tier, small)
+    if r < 0.83:
         return ('ptr', ('map', [(k, g_value(rng, depth, tier)) for k in ks]))
+    if r < 0.96:
+        return g_struct(rng, depth, tier)
     return g_rec(rng, depth, tier)
+
+
+# ---- maps whose keys are not strings: ('kmap', [(key, v)], kind)
+# convert (types.go) names such an entry fmt.Sprint(key); kname computes that text from the key's description
+KM_GO = {"bool": "map[bool]interface{}", "bs": "map[bool]string", "nb": "map[c07Flag]interface{} (named bool)",
+         "i8": "map[int8]interface{}", "u16": "map[uint16]interface{}", "i64": "map[int64]interface{}",
+         "f64": "map[float64]interface{}", "sk": "map[struct{A int; B string}]interface{}",
+         "ak": "map[[2]int]interface{}", "ns": "map[c07Name]interface{} (named string type)",
+         "ik": "map[interface{}]interface{}"}
+KM_KINDS = ["bool", "bs", "nb", "i8", "u16", "i64", "f64", "sk", "ak", "ns", "ik"]
+KM_WORDS = ["x", "y", "ab", "k1", "red", "on", "off", "n", "zz", "q7"]
+
+
+def kname(kind, k):
+    """fmt.Sprint(key)"""
+    if kind in ("bool", "bs", "nb"):
+        return "true" if k else "false"
+    if kind in ("i8", "u16", "i64"):
+        return str(k)
+    if kind == "f64":                    # quarters of small integers: %v prints them in plain decimal
+        return str(int(k)) if float(k) == int(k) else repr(float(k))
+    if kind == "sk":
+        return "{%d %s}" % (k[0], k[1])
+    if kind == "ak":
+        return "[%d %d]" % (k[0], k[1])
+    if kind == "ns":
+        return k
+    if kind == "ik":
+        return kname({"bool": "bool", "int": "i64", "str": "ns"}[k[0]], k[1])
+    raise ValueError(kind)
+
+
+def kkey_go(kind, k):
+    if kind == "ik":
+        return d_go((k[0], k[1].encode() if k[0] == 'str' else k[1]))
+    return k
+
+
+def g_kkey(rng, kind):
+    if kind in ("bool", "bs", "nb"):
+        return rng.random() < 0.5
+    if kind == "i8":
+        return rng.randint(-128, 127)
+    if kind == "u16":
+        return rng.choice([0, 1, 2, 7, 10, 255, 256, 65535, rng.randint(0, 65535)])
+    if kind == "i64":
+        return rng.choice([rng.randint(-9, 30), rng.randint(-10 ** 12, 10 ** 12)])
+    if kind == "f64":
+        return rng.randint(-40, 400) / 4.0
+    if kind == "sk":
+        return [rng.randint(-3, 12), rng.choice(KM_WORDS)]
+    if kind == "ak":
+        return [rng.randint(-3, 12), rng.randint(0, 3)]
+    if kind == "ns":
+        return rng.choice(KM_WORDS + KEYS[:8])
+    if kind == "ik":
+        r = rng.random()
+        return ['bool', rng.random() < 0.5] if r < 0.3 else ['int', rng.randint(-5, 40)] if r < 0.65 else \
+            ['str', rng.choice(KM_WORDS)]
+    raise ValueError(kind)
+
+
+def g_kmap(rng, depth, tier, small=False):
+    kind = rng.choice(KM_KINDS)
+    want = 2 if kind in ("bool", "bs", "nb") else rng.choice([2, 2, 3, 4, 6] if small else [2, 3, 4, 6, 9, 12])
+    if rng.random() < 0.06:
+        want = rng.choice([0, 1])
+    ents, seen = [], set()
+    for _ in range(want * 4):
+        if len(ents) >= want:
+            break
+        k = g_kkey(rng, kind)
+        nm = kname(kind, k)
+        if nm in seen:                   # two keys of one map never print alike (1 and "1" in a map[interface{}])
+            continue
+        seen.add(nm)
+        ents.append((k, ('str', g_str(rng)) if kind == "bs" else g_value(rng, min(depth, 1), tier)))
+    return ('kmap', ents, kind)
+
+
+# ---- struct types that have no name of their own: ('st', [(Field, v)], ty, is_pointer)
+# ty = -1: the type is made by reflect.StructOf from the fields (string / int / bool / []string fields for such
+# values, interface{} otherwise) - the Go type of a `struct{Title string; ...}` literal: no name, no package path;
+# ty >= 0: one of the harness' types declared inside functions - different types, all called View in package main
+ST_FIELDS = ["Title", "Name", "ID", "Count", "Label", "Tags", "Items", "Attrs", "Url", "Price", "Qty", "Sku", "Note",
+             "Kind", "Flag", "Rank", "A", "B", "X"]
+LOCAL_TYPES = [[("Title", "str"), ("Count", "int")],
+               [("Name", "str"), ("Tags", "strs"), ("Count", "int")],
+               [("ID", "int"), ("Label", "str"), ("Items", "arr"), ("Attrs", "map")],
+               [("Label", "str")],
+               [("Count", "int"), ("Title", "str")]]
+
+
+def g_field(rng, kind):
+    if kind == "str":
+        return ('str', g_str(rng) or b"s")
+    if kind == "int":
+        return ('int', rng.randint(1, 99))
+    if kind == "strs":
+        return ('strs', [g_str(rng, 4) for _ in range(rng.randint(0, 3))])
+    if kind == "arr":
+        return ('arr', [g_scalar(rng) for _ in range(rng.randint(0, 3))])
+    return ('map', [(k, g_scalar(rng)) for k in g_keys(rng, rng.randint(0, 3))])
+
+
+def g_struct(rng, depth, tier):
+    ptr = rng.random() < 0.3
+    if rng.random() < 0.35:
+        ty = rng.randrange(len(LOCAL_TYPES))
+        return ('st', [(n, g_field(rng, k)) for n, k in LOCAL_TYPES[ty]], ty, ptr)
+    names = rng.sample(ST_FIELDS, rng.choice([1, 1, 2, 2, 3, 4, 6]))
+    fs = []
+    for n in names:
+        r = rng.random()
+        fs.append((n, g_field(rng, "str") if r < 0.4 else g_field(rng, "int") if r < 0.6 else
+                   g_value(rng, min(depth, 1), tier)))
+    return ('st', fs, -1, ptr)
+
+
+def kinds_of(v, tag, acc=None):
+    """all sub-values of the data with that tag"""
+    acc = [] if acc is None else acc
+    t = v[0]
+    if t == tag:
+        acc.append(v)
+    if t in ('arr', 'objs'):
+        for x in v[1]:
+            kinds_of(x, tag, acc)
+    elif t in ('map', 'omap', 'kmap', 'st'):
+        for _, x in v[1]:
+            kinds_of(x, tag, acc)
+    elif t in ('rec', 'prec'):
+        for x in v[1].values():
+            kinds_of(x, tag, acc)
+    elif t in ('ptr', 'obj'):
+        kinds_of(v[1], tag, acc)
+    return acc
 
 
 def g_items(rng, tier):
@@ -434,6 +608,8 @@ def lower_nested(v, top=True):
         return (t, {k: lower_nested(x, False) for k, x in v[1].items()})
     if t in ('ptr', 'obj'):
         return (t, lower_nested(v[1], top))
+    if t in ('kmap', 'st'):
+        return (t, [(k, lower_nested(x, False)) for k, x in v[1]]) + tuple(v[2:])
     return v
 
 
@@ -1187,9 +1363,18 @@ def req_go(case, p):
             "pre": p.get("pre", 0)}
 
 
+def before_reqs(case):
+    """the renders that come first in the process where the pair is NOT the first render of the process' life: the
+    first two renders of the history / the late phase (by the pair's engines) whose data is not the pair's"""
+    reqs = [p for p in list(case["prefix"]) + list(case.get("late", []))
+            if not p.get("pair") and not is_alien_req(case, p) and p["data"] != case["data"]]
+    return reqs[:2]
+
+
 def to_harness(case):
     tp = t_path(case)
-    return {"files": {hx(tp if n == "t" else n): hx(ast(tpl_ast(v))) for n, v in case["nodes"].items()},
+    return {"before": [req_go(case, p) for p in before_reqs(case)],
+            "files": {hx(tp if n == "t" else n): hx(ast(tpl_ast(v))) for n, v in case["nodes"].items()},
             "siblings": {hx(n): hx(ast(tpl_ast(v))) for n, v in case.get("siblings", {}).items()},
             "render": hx(tp), "data": d_go(tuplify(case["data"])), "single": False, "fresh": FRESH_PROCESSES,
             "prefix": [req_go(case, p) for p in case["prefix"]],
@@ -1228,6 +1413,8 @@ def tuplify(v):
         return (t, {k: tuplify(x) for k, x in v[1].items()})
     if t in ('ptr', 'obj'):
         return (t, tuplify(v[1]))
+    if t in ('kmap', 'st'):
+        return (t, [(k, tuplify(x)) for k, x in v[1]]) + tuple(v[2:])
     if t == 'objs':
         return ('objs', [tuplify(x) for x in v[1]])
     if t == 'omap':
@@ -1271,6 +1458,8 @@ def jsonable(v):
         return [t, {k: jsonable(x) for k, x in v[1].items()}]
     if t in ('ptr', 'obj'):
         return [t, jsonable(v[1])]
+    if t in ('kmap', 'st'):
+        return [t, [[k, jsonable(x)] for k, x in v[1]]] + list(v[2:])
     if t == 'objs':
         return ['objs', [jsonable(x) for x in v[1]]]
     if t == 'omap':
@@ -1351,6 +1540,16 @@ class C07(Prop):
             "Data: Go map[string]interface{}, map[string]string, map[string]int, map[int]string, []interface{}, "
             "[]string, []int, structs, pointers to structs, slices and maps, 0-48 keys (more than 8: several hash "
             "buckets), first-letter case collisions among keys (Foo/foo, A/a, Key/key). "
+            "KEYS THAT ARE NOT STRINGS (13% of all map-like values - m, o and nested ones -, a third of the cases): Go maps keyed by bool "
+            "(map[bool]interface{}, map[bool]string), a named bool type, int8, uint16, int64, float64 (quarters), a struct {A int; B string}, "
+            "[2]int, a named string type, interface{} with bool / int / string keys mixed; 2-12 entries (6%: 0-1) whose keys all print "
+            "differently under fmt.Sprint; the judge is given the entry names fmt.Sprint(key) as computed by the generator (kname), the "
+            "oracle needs no names. STRUCT TYPES WITHOUT A NAME (13% of the map-like values + 3% of nested values, half of the "
+            "cases): values and pointers (30%) of types built by reflect.StructOf from 1-6 of 19 field names with string / int / "
+            "bool / []string / interface{} fields (65%; no name, no package path - the type of a struct literal) or of one of five "
+            "types declared inside functions of the harness that are all called main.View (fields Title,Count / Name,Tags,Count / "
+            "ID,Label,Items,Attrs / Label / Count,Title). The data of the pair, of each history / late render and of each alien "
+            "render is generated independently, so a process converts several such types one after the other, in the order the case says. "
             "OBJECT-MODEL DATA (32% of the cases): values of the data are held as objects of the engine's own model - "
             "items in 90% of these cases (half of them a Go slice []pugjs.Object whose elements are pugjs.String / Number / Bool / Nil / *Map / *Array, "
             "the others the *pugjs.Array the caller got from pugjs.Convert), m and o in 60% each (*pugjs.Map from pugjs.Convert of a map or a struct - "
@@ -1386,7 +1585,10 @@ class C07(Prop):
             "table) and renders only that request; the pair (output in the full process, output in its own process) must be "
             "equal. An engine that fails to load is observed as class load_error for each of its renders (a template that "
             "loads in no process at all is a check error). "
-            "Every case runs in 4 processes "
+            "NOT THE FIRST RENDER: every case that has a history / late render (by the pair's engines) with other data - 95% - "
+            "gets a 5th process: it renders the first two such requests (on the engine that renders the pair, or - odd engine "
+            "number - on a second instance created there) and then the pair, once; that output is judged with the others. "
+            "Every case runs in 4-5 processes "
             "of its own plus one per alien render (the harness re-executes itself per case: nothing is shared between cases, a replay is "
             "self-contained): process 1 renders the pair 8 times and reads each result at once - r0 as the first render of the pair's engines, r1 again "
             "on the same engine, r2 on a second engine instance, then the HISTORY, r3 on a third engine, r4 with freshly "
@@ -1411,7 +1613,7 @@ class C07(Prop):
     trusted = [
         "the Go map iteration oracle pi of the theorems is an arbitrary function returning a permutation of the "
         "entries it is given (Section hypothesis perm_oracle); the runtime's real iteration orders are sampled by "
-        "the correspondence check (11 renders read at once per case, 4 processes)",
+        "the correspondence check (11-12 renders read at once per case, 4-5 processes)",
         "Template.execute / state.walk enter the history theorems as Section variables (new_exec, run_exec, output: "
         "arbitrary functions of the template and the converted data ALONE); that a render reads nothing else - no "
         "engine field, no package-level variable, pool or cache written by an earlier render in the process - is not "
@@ -1452,8 +1654,16 @@ class C07(Prop):
         "reflect.DeepEqual against a second, independently built copy of the data is the harness's oracle for "
         "'input untouched'",
         "lowerFirst is modelled on an ASCII first byte (generators use ASCII first letters)",
-        "process isolation: the harness binary re-executes itself (os/exec) once per case, per single render and per "
-        "alien render",
+        "the name of a map entry whose key is not a string is fmt.Sprint(key) (Models/Purity.v key_text for int keys); for "
+        "the other key kinds (bool, sized ints, float64, struct, array, named types, interface{}) the generator computes "
+        "that text itself (gen/c07.py kname: true/false, decimal, quarters in plain decimal, {A B}, [a b]) and hands it to the "
+        "judge as a string key - the property's oracle (all outputs equal) does not use it",
+        "the member names of a struct are lowerFirst of its field names, per VALUE (Run/Judge_C07.v dval_of works on the field "
+        "list of each GStruct); that the Go conversion does not take them from anything keyed by less than the type itself "
+        "(type name, package path) is checked: reflect.StructOf types and same-named function-local types with different "
+        "fields follow each other in one process, and the extra process in which another render comes before the pair",
+        "process isolation: the harness binary re-executes itself (os/exec) once per case, per single render, per "
+        "alien render and for the process in which the pair is not the first render",
     ]
     assumptions = ["perm_oracle pi: every map range visits each entry exactly once, in some order",
                    "a render's execution state is a function of (template, converted data) - Section variables "
@@ -1464,6 +1674,8 @@ class C07(Prop):
                    "sampled, not proved (see trusted)",
                    "template names (paths below template/page) are pairwise distinct - NoDup hypothesis of "
                    "C07_listing_order_independent",
+                   "two keys of one Go map never print alike under fmt.Sprint (the generator drops such keys: 1 and \"1\" in a "
+                   "map[interface{}] really collapse into one entry chosen by iteration order - convert's documented naming)",
                    "the conversion copies every cell of the caller's data (mconvert; keep = nothing in "
                    "C07_copy_all_untouched) - C07_shared_object_refuted shows what a conversion that keeps a cell does"]
     not_yet_proved = [
@@ -1477,6 +1689,10 @@ class C07(Prop):
         "(C07_shared_translator_refuted, C07_translation_memo_refuted, C07_pooled_buffer_refuted, "
         "C07_shared_object_refuted) and the real code is sampled by the sibling "
         "layouts, the alien engines, the kept results and the object-model data",
+        "the naming of map entries with non-string keys and of struct members is part of the data description handed to "
+        "the models (key_text / lower_first per value), not a theorem about convert: no Coq statement says that a table of "
+        "member names keyed by the type's name would be wrong - the check samples it (several unnamed / same-named struct "
+        "types per process, every non-string key kind with >= 2 entries, rendered 12 times in 5 processes)",
         "template functions other than zero-argument constants (functions with arguments, functions returning the "
         "same object on every call) are not generated; the package-level debugMode / loggerInstance of pugjs "
         "(setLoggerInfos) are shared by all engines of a process - engines with different Debug settings are not part of this check",
@@ -1492,7 +1708,7 @@ class C07(Prop):
     def run(self, binary, cases, tmp, tier):
         obss = run_harness(binary, self.engine, [to_harness(c) for c in cases])
         for i, o in enumerate(obss):
-            if len(o["r"]) != FULL_RENDERS or len(o["fresh"]) != FRESH_PROCESSES:
+            if len(o["r"]) != FULL_RENDERS or len(o["fresh"]) != FRESH_PROCESSES + bool(before_reqs(cases[i])):
                 raise BuildError("harness returned %d+%d renders (case %d)" % (len(o["r"]), len(o.get("fresh") or []), i), "")
             # an engine that does not load is an observation (class load_error) - but a template that loads nowhere,
             # not even in the processes that hold nothing else, is a defect of the generator
@@ -1547,7 +1763,7 @@ class C07(Prop):
         if m is None:
             return False
         m = top_of(m)
-        return m[0] in ('rec', 'prec') or len(m[1]) >= 2
+        return m[0] in ('rec', 'prec', 'st') or len(m[1]) >= 2
 
     def sample(self, case, obs):
         outs = self.outs(obs)
@@ -1763,10 +1979,10 @@ class C07(Prop):
                 c["data"] = wrap(['map', top[:i] + top[i + 1:]])
                 yield c
         for i, (k, v) in enumerate(top):
-            if v[0] in ('map', 'smap', 'imap', 'nmap', 'omap') and len(v[1]) > 0:
+            if v[0] in ('map', 'smap', 'imap', 'nmap', 'omap', 'kmap') and len(v[1]) > 0:
                 for j in range(len(v[1])):
                     c = dict(case)
-                    c["data"] = wrap(['map', top[:i] + [[k, [v[0], v[1][:j] + v[1][j + 1:]]]] + top[i + 1:]])
+                    c["data"] = wrap(['map', top[:i] + [[k, [v[0], v[1][:j] + v[1][j + 1:]] + list(v[2:])]] + top[i + 1:]])
                     yield c
             elif v[0] in ('arr', 'strs', 'ints', 'objs') and len(v[1]) > 0:
                 for j in range(len(v[1])):
@@ -1806,7 +2022,8 @@ class C07(Prop):
              "history_same_template_other_data": 0, "history_other_engine": 0,
              "state_building_templates_with_history_of_same_template_other_data": 0,
              "go_exec_error": 0, "first_letter_collisions": 0,
-             "renders_read_at_once_per_case": FULL_RENDERS + FRESH_PROCESSES, "processes_per_case": 1 + FRESH_PROCESSES,
+             "renders_read_at_once_per_case": "%d-%d" % (FULL_RENDERS + FRESH_PROCESSES, FULL_RENDERS + FRESH_PROCESSES + 1),
+             "processes_per_case": "%d-%d" % (1 + FRESH_PROCESSES, 2 + FRESH_PROCESSES),
              "template_in_subdirectory": 0, "with_siblings": 0, "sibling_files": 0,
              "siblings_defining_a_mixin_name_the_template_uses": 0, "sibling_in_other_directory": 0,
              "listed_before_all_siblings_and_after_all_siblings": 0,
@@ -1825,7 +2042,12 @@ class C07(Prop):
              "name_read_by_the_template_is_function_in_one_engine_and_variable_in_another": 0,
              "... and that other engine is created first": 0,
              "alien_renders": 0, "alien_renders_ok_in_both_processes": 0, "alien_renders_kept_unread": 0,
-             "engine_load_errors_observed": 0}
+             "engine_load_errors_observed": 0,
+             # keys that are not strings / struct types without a name
+             "cases_with_non_string_keyed_map": 0, "non_string_key_kinds": {}, "... rendered map (m or o) is one with >= 2 entries": 0,
+             "cases_with_unnamed_or_local_struct_type": 0, "distinct_such_struct_types_per_process": {"0": 0, "1": 0, "2-3": 0, "4+": 0},
+             "cases_with_process_where_pair_is_not_first_render": 0,
+             "... and the renders before it convert another unnamed/local struct type than the pair's data": 0}
         for c, o in zip(cases, obss):
             dt = tuplify(c["data"])
             kinds = d_kinds(dt, set())
@@ -1863,6 +2085,29 @@ class C07(Prop):
                                                   if is_alien_req(c, p) and p.get("hold"))
             d["engine_load_errors_observed"] += any(r["class"] == "load_error" for r in self.outs(o) + list(o.get("alien", []))
                                                     + list(o.get("alien_ref", [])))
+            km = kinds_of(dt, 'kmap')
+            d["cases_with_non_string_keyed_map"] += bool(km)
+            for x in km:
+                d["non_string_key_kinds"][x[2]] = d["non_string_key_kinds"].get(x[2], 0) + 1
+            tpm = dict(top_of(dt)[1])
+            d["... rendered map (m or o) is one with >= 2 entries"] += any(
+                tpm.get(x, ('nil',))[0] == 'kmap' and len(tpm[x][1]) >= 2 for x in ("m", "o"))
+            sig = lambda x: (x[2], tuple((k, v[0]) for k, v in x[1]))
+            mine = {sig(x) for x in kinds_of(dt, 'st')}
+            d["cases_with_unnamed_or_local_struct_type"] += bool(mine)
+            everything = set(mine)
+            for p in list(c["prefix"]) + list(c.get("late", [])) + [w for a in c.get("aliens", []) for w in a.get("warm", [])]:
+                if p.get("data") is not None:
+                    everything |= {sig(x) for x in kinds_of(tuplify(p["data"]), 'st')}
+            ne = len(everything)
+            d["distinct_such_struct_types_per_process"]["0" if ne == 0 else "1" if ne == 1 else "2-3" if ne <= 3 else "4+"] += 1
+            bf = before_reqs(c)
+            d["cases_with_process_where_pair_is_not_first_render"] += bool(bf)
+            before_types = set()
+            for p in bf:
+                before_types |= {sig(x) for x in kinds_of(tuplify(p["data"]), 'st')}
+            d["... and the renders before it convert another unnamed/local struct type than the pair's data"] += bool(
+                mine and before_types - mine)
             d["shape"][c["shape"][0]] = d["shape"].get(c["shape"][0], 0) + 1
             data = tuplify(c["data"])
             for k in d_kinds(data, set()):
